@@ -4,6 +4,7 @@ from __future__ import annotations
 
 import itertools
 import sys
+import warnings
 from typing import Any
 
 import numpy as np
@@ -16,7 +17,10 @@ from mc.harness import AffineEnsemble, TableEvaluator, make_manager, make_transf
 
 PROPERTY = "C14"
 RULE = (
-    "E2 deviation-bounded fault enumeration over COMPLETE runs of both step kinds: at every evaluator call the harness asks "
+    "(Grid) every supported SciPy method x constraint set it accepts {none, linear rows that all touch a fixed variable, a "
+    "linear row on a free variable, two non-linear constraints, both} x mask {none, one fixed, two fixed} x bounds: the "
+    "fault-free run must return OPTIMIZER_STEP_FINISHED and 'every row fails at evaluation k' (each k) must return "
+    "TOO_FEW_REALIZATIONS right there, never an exception. (Main) E2 deviation-bounded fault enumeration over COMPLETE runs of both step kinds: at every evaluator call the harness asks "
     "a chooser for the environment answer: no fault (default), ANY non-empty subset of the call's rows failing (NaN), or the "
     "evaluator raising ValueError. All executions with <=1 deviation (quick) / <=2 deviations for the small drivers "
     "(thorough) are run to completion. Drivers: scripted optimizer (4 call-backs: f, g, f+g, f at three points; "
@@ -416,6 +420,8 @@ def shards(tier: str, seed: int) -> list[dict[str, Any]]:
             if driver in ("slsqp", "de") and tier == "quick" and cfg["transforms"] in ("objectives",):
                 continue
             out.append({**cfg, "driver": driver, "tier": tier})
+    for group in core.chunked(grid_cases(), 8):
+        out.append({"kind": "grid", "cases": group, "tier": tier})
     return out
 
 
@@ -432,6 +438,11 @@ def variants(shard: dict[str, Any]) -> list[dict[str, Any]]:
 
 def run_shard(shard: dict[str, Any]) -> core.ShardResult:
     rec = Recorder(shard)
+    if shard.get("kind") == "grid":
+        for case in shard["cases"]:
+            rec.add(("grid", case["method"], case["conset"], None if case["mask"] is None else tuple(case["mask"]), case["bounds"]),
+                    case, judge_grid(case))
+        return rec.finish()
     # thorough: two deviations for the scripted / evaluator drivers on the untransformed configurations
     bound = 2 if (shard["tier"] == "thorough" and shard["driver"] in ("scripted", "evaluator") and shard["transforms"] == "none") else 1
     for case in variants(shard):
@@ -450,7 +461,116 @@ def run_shard(shard: dict[str, Any]) -> core.ShardResult:
     return rec.finish()
 
 
+# ---------------------------------------------------------------------------- method grid (real SciPy runs, V=3)
+
+GRID_METHODS = {"slsqp": ("con", "lin"), "cobyla": ("con", "lin"), "differential_evolution": ("con", "lin"), "nelder-mead": (),
+                "powell": (), "cg": (), "bfgs": (), "newton-cg": (), "l-bfgs-b": (), "tnc": ()}
+GRID_BOUNDS = {"slsqp", "differential_evolution", "nelder-mead", "powell", "l-bfgs-b", "tnc"}
+
+
+def grid_cases() -> list[dict[str, Any]]:
+    out = []
+    for method, caps in GRID_METHODS.items():
+        consets = ["none"] + (["lin-fixed", "lin-free", "twocon", "twocon+lin-fixed"] if caps else [])
+        for conset in consets:
+            for mask in (None, [True, False, True], [False, False, True]):
+                for bounds in ((False, True) if method in GRID_BOUNDS else (False,)):
+                    if method == "differential_evolution" and not bounds:
+                        continue
+                    out.append({"kind": "grid", "method": method, "conset": conset, "mask": mask, "bounds": bounds})
+    return out
+
+
+def grid_config(case: dict[str, Any]) -> dict[str, Any]:
+    method = case["method"]
+    options: dict[str, Any] = {"maxiter": 3}
+    if method == "differential_evolution":
+        options = {"maxiter": 1, "popsize": 2, "seed": 11}
+    config: dict[str, Any] = {
+        "variables": {"initial_values": [0.5, -0.25, 1.0]},
+        "realizations": {"weights": [1.0, 2.0]},
+        "gradient": {"number_of_perturbations": 2, "perturbation_magnitudes": 0.05, "seed": 3},
+        "optimizer": {"method": method, "options": options},
+    }
+    if case["bounds"]:
+        config["variables"]["lower_bounds"] = [-2.0, -2.0, -2.0]
+        config["variables"]["upper_bounds"] = [2.0, 2.0, 3.0]
+    if case["mask"] is not None:
+        config["variables"]["mask"] = case["mask"]
+    conset = case["conset"]
+    if "lin-fixed" in conset:  # every row touches variable 1, which the masks fix: all rows are dropped under a mask
+        config["linear_constraints"] = {"coefficients": [[1.0, 1.0, 0.0], [0.0, 1.0, -1.0]], "lower_bounds": [-1.0, -3.0], "upper_bounds": [4.0, 3.0]}
+    if "lin-free" in conset:
+        config["linear_constraints"] = {"coefficients": [[0.0, 0.0, 1.0]], "lower_bounds": [-1.5], "upper_bounds": [2.5]}
+    if "twocon" in conset:
+        config["nonlinear_constraints"] = {"lower_bounds": [-50.0, -60.0], "upper_bounds": [50.0, 60.0]}
+    return config
+
+
+def judge_grid(case: dict[str, Any]) -> Judgement:
+    """Fault-free run and 'everything fails at evaluation k' for every k: normal return with the documented code."""
+    from ropt.evaluator import EvaluatorResult
+    from ropt.plan import OptimizerContext, Plan
+
+    j = Judgement()
+    n_con = 2 if "twocon" in case["conset"] else 0
+    target = np.array([0.25, 0.5, -0.5])
+
+    def run_once(nan_at: int | None) -> tuple[Any, Any, int]:
+        state = {"evals": 0}
+
+        def evaluator(variables: np.ndarray, context: Any) -> Any:
+            k = state["evals"]
+            state["evals"] += 1
+            n_rows = variables.shape[0]
+            objectives = np.zeros((n_rows, 1))
+            constraints = np.zeros((n_rows, n_con)) if n_con else None
+            for i in range(n_rows):
+                x = np.asarray(variables[i], dtype=np.float64)
+                r = int(context.realizations[i])
+                objectives[i, 0] = float((x - target) @ (x - target)) * (1 + 0.5 * r) + 0.125 * r
+                if constraints is not None:
+                    constraints[i, 0] = float(x[0] + 2 * x[2]) + r
+                    constraints[i, 1] = float(x[0] * x[2]) - 0.5 * r
+            if nan_at == k:
+                objectives[:, 0] = np.nan
+            return EvaluatorResult(objectives=objectives, constraints=constraints)
+
+        plan = Plan(OptimizerContext(evaluator=evaluator))
+        step = plan.add_step("optimizer")
+        try:
+            with warnings.catch_warnings():
+                warnings.simplefilter("ignore")
+                code = plan.run_step(step, config=grid_config(case)).name
+            return code, None, state["evals"]
+        except Exception as exc:  # noqa: BLE001
+            return None, f"{type(exc).__name__}: {str(exc)[:160]}", state["evals"]
+
+    label = f"{case['method']}"
+    code, error, n_evals = run_once(None)
+    j.transitions = n_evals
+    if error is not None:
+        j.fail(f"grid:fault-free-run-raised:{error.split(':')[0]}", error=error, case=case)
+        j.outcome = f"grid:{label}:raised"
+        return j
+    if code != "OPTIMIZER_STEP_FINISHED":
+        j.fail(f"grid:fault-free-run-ended-with-{code}", case=case)
+    for k in range(min(n_evals, 4)):
+        code_k, error_k, n_k = run_once(k)
+        j.transitions += n_k
+        if error_k is not None:
+            j.fail(f"grid:unrelated-exception:{error_k.split(':')[0]}", error=error_k, nan_at=k, case=case)
+        elif code_k != "TOO_FEW_REALIZATIONS":
+            j.fail(f"grid:all-rows-failed-but-code-{code_k}", nan_at=k, case=case)
+        elif n_k != k + 1:
+            j.fail("grid:run-continued-after-too-few-evaluation", nan_at=k, evaluations=n_k, case=case)
+    j.outcome = f"grid:{label}:{case['conset']}:mask={case['mask'] is not None}"
+    return j
+
+
 def run_case(case: dict[str, Any]) -> Judgement:
+    if case.get("kind") == "grid":
+        return judge_grid(case)
     chooser = Chooser(prefix=list(case["choices"]))
     run = execute(case, chooser)
     return judge_run(case, run)
